@@ -754,6 +754,41 @@ pub fn colliding_board(p: &ChessBoard, proj: fn(u64) -> u64, rng: &mut crate::ut
     None
 }
 
+/// `p` with exactly one square changed: kind even = an extra man on an empty square (pawns allowed on every rank), kind odd = a
+/// non-king man replaced by a man of another type and/or colour.  `None` when `setup` refuses the result.
+pub fn one_square_variant(p: &ChessBoard, kind: usize, rng: &mut crate::util::Rng) -> Option<ChessBoard> {
+    let cells: Vec<Option<Piece>> = (0..64).map(|i| p.get_piece_on(sq(i))).collect();
+    let mut pcs: Vec<(Square, Piece)> = (0..64).filter_map(|i| cells[i].map(|x| (sq(i), x))).collect();
+    let ep = p.get_en_passant().map(|e| e.to_index());
+    let rand_piece = |rng: &mut crate::util::Rng| Piece(pt(rng.below(5)), if rng.pct(50) { Color::White } else { Color::Black });
+    if kind % 2 == 0 {
+        let empties: Vec<usize> = (0..64).filter(|&i| cells[i].is_none() && Some(i) != ep).collect();
+        if empties.is_empty() { return None; }
+        // half of the extra men are pawns on a back rank when one is free
+        let back: Vec<usize> = empties.iter().copied().filter(|&i| i < 8 || i >= 56).collect();
+        if kind % 4 == 0 && !back.is_empty() {
+            let i = *rng.pick(&back);
+            pcs.push((sq(i), Piece(PieceType::Pawn, if rng.pct(50) { Color::White } else { Color::Black })));
+        } else {
+            let i = *rng.pick(&empties);
+            pcs.push((sq(i), rand_piece(rng)));
+        }
+    } else {
+        let idx: Vec<usize> = (0..pcs.len()).filter(|&j| pcs[j].1 .0 != PieceType::King).collect();
+        if idx.is_empty() { return None; }
+        let j = *rng.pick(&idx);
+        let mut np = rand_piece(rng);
+        for _ in 0..8 { if np != pcs[j].1 { break; } np = rand_piece(rng); }
+        if np == pcs[j].1 { return None; }
+        pcs[j].1 = np;
+    }
+    catch(|| {
+        ChessBoard::setup(&pcs, p.get_side_to_move(), p.get_castle_rights(Color::White), p.get_castle_rights(Color::Black),
+            p.get_en_passant(), p.get_moves_since_capture_or_pawn_move(), p.get_move_number()).ok()
+    })
+    .flatten()
+}
+
 impl Session {
     /// `g.probe <raw>`: `get_position_counter` of an arbitrary board
     pub fn op_probe(&self, q: &ChessBoard) -> String {
